@@ -31,7 +31,7 @@ CHECKS = {
     ),
     "C04": (
         "must-pass-through and def-use on the template expansion path",
-        "Decides seven narrow clauses: automatic newline not bypassed, includable part computed at ingestion, positional values untrimmed / named trimmed / later duplicates win, body pipeline order stored body->preprocess->encode->substitute->expand with the new parent frame, conditional functions trim their results, missing template -> link and undefined parameter -> literal, #switch fall-through flags are latches and every keyed entry reaches the match test, shortcuts in front of the includable-part pipeline are implied by the step patterns (regex inclusion). Thin: equality with MediaWiki output is not decidable statically. The argument map is filled in one pass over the call's arguments in the order written. Argument names reach the argument map and the lookup in one normal form (white space collapsed and stripped, or an integer index) on every path. The noinclude removal matches exactly a <noinclude>..</noinclude> section (inclusion); the onlyinclude bodies are all joined (read structurally).",
+        "Decides seven narrow clauses: automatic newline not bypassed, includable part computed at ingestion, positional values untrimmed / named trimmed / later duplicates win, body pipeline order stored body->preprocess->encode->substitute->expand with the new parent frame, conditional functions trim their results, missing template -> link and undefined parameter -> literal, #switch fall-through flags are latches and every keyed entry reaches the match test, shortcuts in front of the includable-part pipeline are implied by the step patterns (regex inclusion). Thin: equality with MediaWiki output is not decidable statically. The argument map is filled in one pass over the call's arguments in the order written. Argument names reach the argument map and the lookup in one normal form (white space collapsed and stripped, or an integer index) on every path. The noinclude removal matches exactly a <noinclude>..</noinclude> section (inclusion); the onlyinclude bodies are all joined (read structurally). The loop detector answers True only under a repetition test.",
         "Def-use is intra-procedural over the anchored closures.",
         "DESIGN.md §3 C04",
     ),
@@ -85,7 +85,7 @@ CHECKS = {
     ),
     "C13": (
         "truth-table evaluation of the selection function + writer/reader agreement",
-        "check_template_need_expand evaluated on all consistent valuations against the statement; every exit of the template branch is an expansion, an error element or a re-emission of the call with all its arguments in order, and the re-emitting exits are stack-balanced; hook call discipline; formatter delimiters agree with the encoder's bracket regexes; flags written earlier are visible to the selection function (memo invalidation); re-emitted parser-function calls keep the name as written. No expansion entry point is memoised (decorator or hand-written result table): hooks see every expanded call.",
+        "check_template_need_expand evaluated on all consistent valuations against the statement; every exit of the template branch is an expansion, an error element or a re-emission of the call with all its arguments in order, and the re-emitting exits are stack-balanced; hook call discipline; formatter delimiters agree with the encoder's bracket regexes; flags written earlier are visible to the selection function (memo invalidation); re-emitted parser-function calls keep the name as written. No expansion entry point is memoised (decorator or hand-written result table): hooks see every expanded call. Name canonicalisation never maps a template name onto a registered magic variable.",
         "Character-level identity of re-emitted text is not decided.",
         "DESIGN.md §3 C13",
     ),
@@ -109,13 +109,13 @@ CHECKS = {
     ),
     "C17": (
         "dominance on the work-list loop + SQL facts",
-        "Every push onto the analysis work list is dominated by a fresh read, the need_pre_expand skip test and the marking write (termination on cycles); propagation direction of included_map; both redirect UPDATEs present and committed; memo invalidation of the writes; the marking UPDATE selects by key columns only; in-memory mirrors of the marking are maintained by every writer; the lookup finds every stored title. The classifier loop scans get_all_pages restricted by nothing but the namespace and skips no page. The redirect-propagation statements carry no filter beyond join, namespace, marked and not-yet-marked. No expression reaching the need_pre_expand column can be None.",
+        "Every push onto the analysis work list is dominated by a fresh read, the need_pre_expand skip test and the marking write (termination on cycles); propagation direction of included_map; both redirect UPDATEs present and committed; memo invalidation of the writes; the marking UPDATE selects by key columns only; in-memory mirrors of the marking are maintained by every writer; the lookup finds every stored title. The classifier loop scans get_all_pages restricted by nothing but the namespace and skips no page. The redirect-propagation statements carry no filter beyond join, namespace, marked and not-yet-marked. No expression reaching the need_pre_expand column can be None. The marking statement marks the page it was asked to mark.",
         "Exactness of the marked closure is graph-shaped runtime data and is not decided.",
         "DESIGN.md §3 C17",
     ),
     "C18": (
         "table agreement with the documented precedence ladder + mypy comparison-overlap + data cross-check",
-        "The #expr ladder and the table used at each level agree with the documented precedence, left folding; no str/int comparison in registered functions (quick: annotation-driven AST rule; thorough: mypy strict equality); formatnum and formatnum|R are inverse by statement order for every shipped locale, and the locale data is used as loaded. Values of the string functions are not decided. #explode resolves a negative position against a piece count that depends on the limit (information flow). Slice bounds computed from signed arguments are provably non-negative (path-sensitive integer bounds); the name:argument text is only stripped of modifiers before the split. No truthiness default replaces a localisation value that a shipped locale defines as empty on purpose (decided from data/*/localization.json). Every #expr comparison operator applies exactly the comparison its key names (no tolerance).",
+        "The #expr ladder and the table used at each level agree with the documented precedence, left folding; no str/int comparison in registered functions (quick: annotation-driven AST rule; thorough: mypy strict equality); formatnum and formatnum|R are inverse by statement order for every shipped locale, and the locale data is used as loaded. Values of the string functions are not decided. #explode resolves a negative position against a piece count that depends on the limit (information flow). Slice bounds computed from signed arguments are provably non-negative (path-sensitive integer bounds); the name:argument text is only stripped of modifiers before the split. No truthiness default replaces a localisation value that a shipped locale defines as empty on purpose (decided from data/*/localization.json). Every #expr comparison operator applies exactly the comparison its key names (no tolerance). wikiurlencode returns only quoted text.",
         "Documented precedence table frozen in the checker; values of string functions not decided.",
         "DESIGN.md §3 C18",
     ),
